@@ -104,8 +104,20 @@ pub fn run_range(scratch: &Path, out: &mut Out, tier: &str, seed: u64) {
     for (ki, &l) in lens.iter().enumerate() {
         // distinct bytes for the short contents (a slice identifies its offset), pseudo-random for the long ones
         let content: Vec<u8> = if l <= 6 { (1..=l as u8).collect() } else { (0..l).map(|_| rnd(&mut s) as u8).collect() };
+        // the key first holds a content of another length (the recorded size must follow the overwrite)
+        let other: Vec<u8> = (0..(l / 2 + 3)).map(|i| (i % 251) as u8).collect();
         let mut tx = cas.put(ki as u32).unwrap();
-        tx.write(&content).unwrap();
+        tx.write(&other).unwrap();
+        tx.finish().unwrap();
+        let mut tx = cas.put(ki as u32).unwrap();
+        if ki % 2 == 0 {
+            tx.write(&content).unwrap();
+        } else {
+            // header-like small piece first, then the rest in one call
+            let cut = content.len().min(16);
+            tx.write(&content[..cut]).unwrap();
+            tx.write(&content[cut..]).unwrap();
+        }
         tx.finish().unwrap();
         let key = ki as u32;
         let size = cas.get_size(&key).unwrap().map_or(-1, |v| v as i64);
@@ -268,6 +280,52 @@ pub fn run_blob(scratch: &Path, out: &mut Out, tier: &str, seed: u64) {
             "file_ok": std::fs::read(&file).ok().is_some_and(|b| b == content)}));
         cas.remove(&key).unwrap();
     }
+    // a ladder of lengths around every power of two up to 4 MiB (thresholds of "large blob" fast paths), each written
+    // whole, as small-then-large, as large-then-small and in 64 KiB pieces
+    let mut ladder: Vec<usize> = vec![];
+    for p in [12usize, 13, 14, 16, 17, 18, 20, 22] {
+        for d in [-1i64, 0, 1] {
+            ladder.push(((1i64 << p) + d) as usize);
+        }
+    }
+    if tier == "quick" {
+        ladder.retain(|l| *l <= (1 << 20) + 1 || *l == (1 << 22));
+    }
+    for (li, len) in ladder.iter().enumerate() {
+        let content: Vec<u8> = (0..*len).map(|_| rnd(&mut s) as u8).collect();
+        let expect = blake3::hash(&content);
+        let variants: Vec<Vec<usize>> = vec![vec![*len], vec![5, len - 5], vec![len - 7, 7], {
+            let mut v = vec![];
+            let mut r = *len;
+            while r > 0 {
+                let c = r.min(65536);
+                v.push(c);
+                r -= c;
+            }
+            v
+        }];
+        for (vi, ch) in variants.iter().enumerate() {
+            if tier == "quick" && *len > (1 << 20) + 1 && vi > 1 {
+                continue;
+            }
+            key += 1;
+            let mut tx = cas.put(key).unwrap();
+            let mut off = 0;
+            for c in ch {
+                tx.write(&content[off..off + c]).unwrap();
+                off += c;
+            }
+            let fin = tx.finish();
+            let item = cas.read_index_state().get_item(&key);
+            let hx: String = expect.as_bytes().iter().map(|b| format!("{b:02x}")).collect();
+            let file = root.join("cas").join(&hx[0..2]).join(&hx[2..4]).join(&hx[4..]);
+            out.emit(&json!({"ev": "blobr", "len": len, "nchunks": ch.len(), "ladder": li,
+                "hash_ok": fin.is_ok() && item.is_some_and(|it| it.blob_hash.as_bytes() == expect.as_bytes()),
+                "size": item.map_or(0, |it| it.blob_size),
+                "file_ok": std::fs::read(&file).ok().is_some_and(|b| b == content)}));
+            let _ = cas.remove(&key);
+        }
+    }
     // many CONSECUTIVE commits of small distinct contents (the location of a blob must not depend on what was
     // committed before it): every file must sit at the path derived from its own hash
     let nsmall = if tier == "quick" { 20_000 } else { 200_000 };
@@ -301,6 +359,34 @@ pub fn run_blob(scratch: &Path, out: &mut Out, tier: &str, seed: u64) {
         }
     }
     drop(cas);
+    {
+        use std::os::unix::ffi::OsStrExt;
+        // (a) the same store reopened by a caller who asks for the pre-created tree; (b) a database directory whose name is
+        // not valid UTF-8: in both, a blob must sit at <root>/cas/<path derived from its hash>
+        let odd = scratch.join(std::ffi::OsStr::from_bytes(b"db-\xe9-\xff"));
+        let _ = std::fs::remove_dir_all(&odd);
+        for (tag, dir, pre) in [("reopen-pre", root.clone(), true), ("non-utf8-root", odd.clone(), false)] {
+            let cas: Cas<u32> = Cas::open(&dir, Config { pre_create_cas_dirs: pre, ..Default::default() }).unwrap();
+            let mut bad = 0;
+            for i in 0..64u32 {
+                let content: Vec<u8> = rnd(&mut s).to_le_bytes().iter().chain(&(i as u64).to_le_bytes()).copied().collect();
+                let expect = blake3::hash(&content);
+                key += 1;
+                let fin = cas.put(key).and_then(|mut tx| {
+                    let _ = tx.write(&content);
+                    tx.finish()
+                });
+                let hx: String = expect.as_bytes().iter().map(|b| format!("{b:02x}")).collect();
+                let file = dir.join("cas").join(&hx[0..2]).join(&hx[2..4]).join(&hx[4..]);
+                if !(fin.is_ok() && std::fs::read(&file).ok().is_some_and(|b| b == content)) {
+                    bad += 1;
+                }
+            }
+            out.emit(&json!({"ev": "blobbatch", "n": 64, "bad": bad, "first_bad": tag}));
+            drop(cas);
+        }
+        let _ = std::fs::remove_dir_all(&odd);
+    }
     let _ = std::fs::remove_dir_all(&root);
     // ---- hash <-> path
     let emit_path = |h: [u8; 32], out: &mut Out| {
@@ -329,6 +415,28 @@ pub fn run_blob(scratch: &Path, out: &mut Out, tier: &str, seed: u64) {
             *b = rnd(&mut s) as u8;
         }
         emit_path(h, out);
+    }
+    // a two-byte character at every position of an otherwise canonical 66-byte relative path
+    {
+        let canon = "ab/cd/0123456789abcdef0123456789abcdef0123456789abcdef0123456789ab";
+        for pos in 0..canon.len() - 1 {
+            if canon.as_bytes()[pos] == b'/' || canon.as_bytes()[pos + 1] == b'/' {
+                continue;
+            }
+            let mut sname = String::new();
+            sname.push_str(&canon[..pos]);
+            sname.push('é');
+            sname.push_str(&canon[pos + 2..]);
+            let p = PathBuf::from(&sname);
+            let r = catch_unwind(|| BlobHash::from_relative_path(&p));
+            let comps: Vec<Vec<u32>> = p.components().map(|c| c.as_os_str().as_encoded_bytes().iter().map(|b| *b as u32).collect()).collect();
+            let parsed = match r {
+                Ok(Ok(b)) => json!({"st": "ok", "nib": nibbles(b.as_bytes())}),
+                Ok(Err(_)) => json!({"st": "err", "nib": []}),
+                Err(_) => json!({"st": "panic", "nib": []}),
+            };
+            out.emit(&json!({"ev": "parse", "comps": comps, "parsed": parsed}));
+        }
     }
     // parser totality on arbitrary component strings
     let alphabet = ["", "a", "ab", "AB", "zz", "0", "abc", "..", "é", "0123456789abcdef0123456789abcdef0123456789abcdef0123456789ab",
